@@ -194,13 +194,19 @@ pub struct DLong<'a> {
     pub d: &'a [u8],
 }
 #[derive(SplDiscriminate)]
-#[discriminator_hash_input("verif::where",)]
+#[discriminator_hash_input("verif::where")]
 pub struct DWhere<T>
 where
     T: Clone,
 {
     pub t: T,
 }
+// the attribute also takes a trailing comma (gated like the generic subjects: if it stops compiling,
+// the harness is rebuilt without it and the item is reported)
+#[cfg(feature = "generic-subjects")]
+#[derive(SplDiscriminate)]
+#[discriminator_hash_input("verif::trailing_comma",)]
+pub struct DComma;
 #[allow(dead_code)]
 #[derive(SplDiscriminate, Debug)]
 #[discriminator_hash_input("verif::extra_attrs")]
@@ -232,6 +238,8 @@ pub fn run_c18(ctx: &Ctx) -> Report {
         ("DLong", "0123456789012345678901234567890123456789012345678901234567890123456789", DLong::SPL_DISCRIMINATOR, DLong::SPL_DISCRIMINATOR_SLICE),
         ("DWhere", "verif::where", DWhere::<u8>::SPL_DISCRIMINATOR, DWhere::<u8>::SPL_DISCRIMINATOR_SLICE),
         ("DAttrs", "verif::extra_attrs", DAttrs::SPL_DISCRIMINATOR, DAttrs::SPL_DISCRIMINATOR_SLICE),
+        #[cfg(feature = "generic-subjects")]
+        ("DComma", "verif::trailing_comma", DComma::SPL_DISCRIMINATOR, DComma::SPL_DISCRIMINATOR_SLICE),
         #[cfg(feature = "generic-subjects")]
         ("DInline", "verif::inline_bound", DInline::<u8, 3>::SPL_DISCRIMINATOR, DInline::<u8, 3>::SPL_DISCRIMINATOR_SLICE),
     ];
